@@ -31,26 +31,28 @@ call).
 namespace Mast.Ptr
 open Mast.Heap Mast
 
+variable {w : Nat}
+
 theorem C10_object_level_place (E : Env) (m g f : Nat) (opath : CPath) (s : PS) (root : T) (pl : CPlace)
-    (hg : Good s) (hp : PathRep s g opath [(root, 0)]) :
-    Spec (Grow m) (cPlace E f opath pl) s (NavPost g (Cursor.place f root (toPlace pl))) :=
+    (hg : Good s) (hp : PathRep w s g opath [(root, 0)]) :
+    Spec (Grow m) (cPlace E f opath pl) s (NavPost w g (Cursor.place f root (toPlace pl))) :=
   cPlace_spec E g f opath s root pl hg hp
 
 theorem C10_object_level_step (E : Env) (m g f : Nat) (opath : CPath) (s : PS) (P : Path) (mv : CMove)
-    (hg : Good s) (hp : PathRep s g opath P) :
-    Spec (Grow m) (cStep E f opath mv) s (MovePost g opath (Cursor.stepPath f P (toMove mv))) :=
+    (hg : Good s) (hp : PathRep w s g opath P) :
+    Spec (Grow m) (cStep E f opath mv) s (MovePost w g opath (Cursor.stepPath f P (toMove mv))) :=
   cStep_spec E g f opath s P mv hg hp
 
-theorem C10_object_level_get (m g : Nat) (opath : CPath) (s : PS) (P : Path) (hp : PathRep s g opath P) :
+theorem C10_object_level_get (m g : Nat) (opath : CPath) (s : PS) (P : Path) (hp : PathRep w s g opath P) :
     Spec (Grow m) (cGet opath) s (fun r s' => s' = s ∧ r = Cursor.get P) :=
   cGet_spec g opath s P hp
 
 /-- a `Forward` / `Backward` that reports an error (a load failed, at any position of the descent)
     leaves the cursor where it was -/
 theorem C10_object_level_failed_move_stays (E : Env) (g f : Nat) (opath : CPath) (s s' : PS) (P : Path)
-    (mv : CMove) (r : CPath × Bool) (hg : Good s) (hp : PathRep s g opath P)
+    (mv : CMove) (r : CPath × Bool) (hg : Good s) (hp : PathRep w s g opath P)
     (h : cStep E f opath mv s = .ok r s') (herr : r.2 = true) :
-    r.1 = opath ∧ PathRep s' g opath P := by
+    r.1 = opath ∧ PathRep w s' g opath P := by
   have hs := cStep_spec (m := 0) E g f opath s P mv hg hp
   unfold Spec at hs
   rw [h] at hs
@@ -76,8 +78,8 @@ theorem cNavigate_spec (E : Env) (t : PTree) (newId fuel f g : Nat) (pl : CPlace
   · -- no root node: the path is empty and stays empty
     have hpe : path = [] := hnil hr
     subst hpe
-    have hp0 : PathRep s1 g [] [] := trivial
-    have hpl : Spec (Grow newId) (cPlace E f [] pl) s1 (NavPost g []) := by
+    have hp0 : PathRep newId s1 g [] [] := trivial
+    have hpl : Spec (Grow newId) (cPlace E f [] pl) s1 (NavPost newId g []) := by
       cases pl with
       | min => exact cMin_spec E g f [] s1 [] hg1 hp0
       | max => exact cMax_spec E g f [] s1 [] hg1 hp0
